@@ -26,7 +26,7 @@ m = {
  "not_applicable": [{"property_id": k, "reason": v} for k, v in sorted(NOT_APPLICABLE.items())],
  "notes": "All claims are at level 'other': structural necessary conditions of each property decided for every CFG path / call site / table member of the current tree; the behavioural remainder is listed per check in level_note and in evidence.coverage.not_decided. See DESIGN.md.",
 }
-COMMON = (" Every check also carries rule R<n>.0 over the functions its own rules resolve as anchors: once the error of a step was tested non-nil, a nil-error return reachable only through that failure must lie behind a benign-error predicate of that error (IsConflict, IsNotFound, …) — a failed step of the mechanism is never turned into success (DESIGN.md §18.3); since round 5 the rule also covers what those functions call inside crossplane four levels down (static callees and the crossplane implementations of invoked interface methods), requires that the non-scalar results of a step are used only where its error is known to be nil (or handed back together with it), that an error which is only compared with nil is not followed by a success return, that the long-lived objects of the mechanism write no state of their own beyond what is tabled (DESIGN.md §21), that a conflict is never passed to an error filter, that a function which tests the failure of its steps can itself return one, and that an error produced in a loop is looked at before the next iteration overwrites it (DESIGN.md §23)."
+COMMON = (" Every check also carries rule R<n>.0 over the functions its own rules resolve as anchors: once the error of a step was tested non-nil, a nil-error return reachable only through that failure must lie behind a benign-error predicate of that error (IsConflict, IsNotFound, …) — a failed step of the mechanism is never turned into success (DESIGN.md §18.3); since round 5 the rule also covers what those functions call inside crossplane four levels down (static callees and the crossplane implementations of invoked interface methods), requires that the non-scalar results of a step are used only where its error is known to be nil (or handed back together with it), that an error which is only compared with nil is not followed by a success return, that the long-lived objects of the mechanism write no state of their own beyond what is tabled (DESIGN.md §21), that a conflict is never passed to an error filter, that a function which tests the failure of its steps can itself return one, and that an error produced in a loop is looked at before the next iteration overwrites it (DESIGN.md §23); since round 9 also that a conflict is not passed to an error filter through a local predicate either, and that an error the source assigns to a named variable is read before that variable is assigned again (DESIGN.md §27)."
           " The tree is first put into a normal form, source to source and meaning-preserving, the tree itself untouched (DESIGN.md §14.1, §18.1): helpers the reference list does not know (also generic ones, local closures, methods reached through method-value locals) are inlined into their callers, loops over local literal tables are written out row by row, reads of immutable package-level lookup tables become key comparisons, local structs that are only used field by field become one local per field; a stage whose output does not type-check is discarded. "
           "Every reachability query is path-sensitive in the small sense of DESIGN.md §14.2/§18.2 (constant flags, nil-ness of result temporaries, re-tested values, pure error predicates, phis refined by feasibility), "
           "so that the verdict does not depend on how the code is split into functions, tables or carrier structs, or how a condition is spelled.")
@@ -101,9 +101,15 @@ ADDENDA8 = {
  "C19": " Round 8: the Usage's finalizer is removed after the Usages of the resource were counted.",
  "C20": " Round 8: the CA injection loop runs for webhook configurations of any name.",
 }
+ADDENDA9 = {
+ "C07": " Round 9: PatchingManagedFieldsUpgrader.Upgrade (the step that hands the claim-derived fields to the server-side field owner) is an anchor under R7.0.",
+ "C08": " Round 9: (R8.5) the deletion path of a Usage skips Get(using) only on 'spec.by is nil' or 'the composite label is empty' (tabled conditions).",
+ "C15": " Round 9: FsPackageCache.Store reads the error of io.Copy before the error variable is assigned again (R15.0, assigned errors are read).",
+ "C17": " Round 9: an installed version that does not parse as a semantic version is an error of Resolve, not a skipped dependency (the probe exemption of semver.NewVersion is limited to the two tag scans).",
+}
 for pid in sorted(CHECKS):
     c = dict(CHECKS[pid])
-    c["text"] = c["text"] + ADDENDA.get(pid, "") + ADDENDA5.get(pid, "") + ADDENDA6.get(pid, "") + ADDENDA7.get(pid, "") + ADDENDA8.get(pid, "") + COMMON
+    c["text"] = c["text"] + ADDENDA.get(pid, "") + ADDENDA5.get(pid, "") + ADDENDA6.get(pid, "") + ADDENDA7.get(pid, "") + ADDENDA8.get(pid, "") + ADDENDA9.get(pid, "") + COMMON
     c["technique"] = c["technique"] + "; path-sensitive gate-crossing search over the inlined normal form"
     m["checks"].append({
      "property_id": pid,
